@@ -13,6 +13,10 @@ CLAIMS = {
    text="Structural clauses of the wire codec: NumSet/Flag/MailboxAttr reach writeString only on the success edge of their validity test and otherwise set the encoder error (all paths); isValidFlag evaluated on one representative per byte/position class against the RFC 9051 flag grammar (34 rows); every Encoder.Quoted call site validated/constant/single rune; writer and reader literal thresholds agree (the writer's sync/non-sync choice under the capabilities the server advertises is always accepted by acceptLiteral; all size limits are 4096); the decoder's open-literal typestate (flag set only by LiteralReader, cleared only by cancel, tested before every byte read, reader limited to the announced size). 'other': these are necessary conditions; byte-for-byte round-trip equality over all strings, UTF-7 and number formatting are not decided.",
    technique="must-pass-through dataflow over go/ssa, finite-domain evaluation of predicate code on the typed AST, who-may-write rules",
    design="§4 C01"),
+ "C02": dict(
+   text="Structural clauses of 'client arguments reach the backend intact', for all commands, option structs and handlers: field-read coverage of every option struct below every client command method (195 field instances); keyword round trip between the tables extracted from the client's encoders and the paired server switches (42 token/field pairs incl. search keys); command-name table against the server's dispatch switch; no swallowed parse failure on any failure path of the server's parsers (167 paths); search-key accumulation discipline; operand plumbing from the decoded locals to each session call in wire order with the UID number kind. 'other': necessary conditions checked exhaustively over the code; value equality of arbitrary strings/sets after transport is not decided.",
+   technique="type-directed field-coverage and table-agreement rules over the typed AST, error-discipline and value-provenance dataflow over go/ssa",
+   design="§4 C02"),
  "C04": dict(
    text="Structural clauses of server command framing, for all paths: exactly one tagged completion per dispatched command (count of tag-carrying writer calls per path against the nil-ness of the returned error, in readCommand and every self-completing handler, with lemma L1 on the decoder proved on every run); a literal opened on the server decoder is drained, refused only when known synchronising, or refused with the connection terminated, and a refusal puts the decoder in its error state (interprocedural through the CheckBufferedLiteralFunc callback and helper summaries); continuation requests only from literal acceptance/IDLE/AUTHENTICATE after their gates; response-encoder (write lock) pairing and exclusive access to the connection's writer; line discard before completion. 'other': necessary structural conditions, not a proof that the tokenizer never mis-splits bytes.",
    technique="path-sensitive must/may dataflow over go/ssa (completion counting x error nil-ness, literal typestate with interprocedural refusal summaries), who-may-call and acquire/release pairing rules",
